@@ -156,7 +156,39 @@ def run(ctx):
         sig_mark = len(keys.oracle)
         n_streams = ctx.scale(22, 40)
         for k in range(n_streams):
-            node.CLOCK[0] = tree.cs.block_by_hash[tree.cs.current_chain_hash].timestamp + 50
+            node.CLOCK[0] = max(node.CLOCK[0] if k else 0,
+                                tree.cs.block_by_hash[tree.cs.current_chain_hash].timestamp + 50)
+            if rng.random() < 0.35:
+                # legitimate traffic in between: the well-behaved peer relays a valid block — an extension of the head, a
+                # competitor of the head (same height), or a block on an older one — so that what the malformed input must
+                # leave untouched is a state with several tips, some of them adopted after the last growth of the head
+                cs_ = rn.cm.coinstate
+                head_ = cs_.current_chain_hash
+                hb_ = cs_.block_by_hash[head_]
+                opts = [head_]
+                if hb_.height > 0:
+                    opts += [hb_.previous_block_hash, hb_.previous_block_hash]
+                    pb_ = cs_.block_by_hash[hb_.previous_block_hash]
+                    if pb_.height > 0:
+                        opts.append(pb_.previous_block_hash)
+                par = rng.choice(opts)
+                pbk = cs_.block_by_hash[par]
+                try:
+                    lb = chain.mine(cs_, par, [], keys.pk(rng.randrange(0, 5)), pbk.timestamp + rng.randrange(1, 40),
+                                    start_nonce=rng.randrange(0, 1 << 20))
+                except Exception:
+                    lb = None
+                if lb is not None and lb.hash() not in cs_.block_by_hash:
+                    node.CLOCK[0] = max(node.CLOCK[0], lb.timestamp + 5)
+                    rr = rn.deliver_block(good, lb, 0)
+                    ops.append("node block %d 0 %s %d" % (good, hx(lb.serialize()), node.CLOCK[0]))
+                    impl.append(rr)
+                    ops.append("node digest")
+                    impl.append(rn.digest())
+                    res.count("legitimate_block:" + ("extends_head" if par == head_ else "competitor_or_older"))
+                    if lb.hash() not in rn.cm.coinstate.block_by_hash:
+                        res.violations.append({"kind": "a valid block relayed by a well-behaved peer was not accepted",
+                                               "scenario": si, "block": lb.serialize().hex()})
             greeted = rng.random() < 0.7
             outgoing = rng.random() < 0.3
             c = rn.add_peer(active=greeted, outgoing=outgoing)
